@@ -1107,6 +1107,9 @@ func (rn *Runner) Run() {
 	if implicitHost != "" {
 		host = implicitHost
 	}
+	if cfg.Variant == "unixsock" { // the server is reached through a UNIX domain socket (the transport still comes from the dial function of the scenario)
+		host = "unix:///run/verif/smtp.sock"
+	}
 	c, err := mail.NewClient(host, opts...)
 	if err != nil {
 		rn.Infra = err
